@@ -325,6 +325,93 @@ def sec_finite_kernels(rep, tier):
         rep.add(o)
 
 
+def _ops(th_over, ob_over, names, pts):
+    """Real run -> {name: [orders dict per point]} (after the runner's NaN clean-up)."""
+    import warnings
+
+    import yadism
+
+    with warnings.catch_warnings():
+        warnings.simplefilter("ignore")
+        out = yadism.run_yadism(H.base_theory(**th_over), H.base_obs(interpolation_xgrid=[1e-3, 1e-2, 0.1, 0.3, 0.6, 1.0], interpolation_polynomial_degree=2, observables={n: pts for n in names}, **ob_over))
+    return {n: [r.orders for r in out[n]] for n in names}
+
+
+def _dev(lhs, parts):
+    """max relative deviation of lhs from the sum of parts over all points, order keys and entries."""
+    worst, where = 0.0, None
+    for i, tot in enumerate(lhs):
+        keys = set(tot)
+        for p in parts:
+            keys |= set(p[i])
+        for k in sorted(keys):
+            sm = sum(p[i][k][0] for p in parts if k in p[i])
+            t = tot[k][0] if k in tot else 0.0
+            scale = max(1e-12, float(np.max(np.abs(sm))), float(np.max(np.abs(t))))
+            d = float(np.max(np.abs(t - sm))) / scale
+            if d > worst:
+                worst, where = d, (i, k)
+    return worst, where
+
+
+def sec_real_runs(rep, tier):
+    """BOUNDED companions on real runs (real LeProHQ, real quadrature, real NaN clean-up): the four
+    partitions of the statement, per operator entry, on a 6-node grid at two points."""
+    pts = [{"x": 0.1, "Q2": 20.0}, {"x": 0.3, "Q2": 90.0}]
+    thorough = tier == "thorough"
+    scen = []
+    for pto in (1, 2) if thorough else (1,):
+        for pr, proj in (("NC", "electron"), ("CC", "neutrino"), ("EM", "positron")) if thorough else (("NC", "electron"),):
+            for kind in ("F2", "FL", "F3") if thorough else ("F2",):
+                if pr == "EM" and kind == "F3":
+                    continue
+                for nf_ff in (3, 4):
+                    massive = [f for h, f in FLAVOR_OF.items() if h > nf_ff or h == 6]
+                    scen.append((f"FFNS NfFF={nf_ff} {pr} {kind} pto={pto}: total = light + {' + '.join(massive)}", dict(FNS="FFNS", NfFF=nf_ff, PTO=pto, PTODIS=pto), dict(prDIS=pr, ProjectileDIS=proj), [f"{kind}_total", f"{kind}_light"] + [f"{kind}_{f}" for f in massive], None))
+                scen.append((f"ZM-VFNS {pr} {kind} pto={pto}: total = light", dict(FNS="ZM-VFNS", NfFF=4, PTO=pto, PTODIS=pto), dict(prDIS=pr, ProjectileDIS=proj), [f"{kind}_total", f"{kind}_light"], None))
+    for nm, th, ob, names, _ in scen:
+        rep.cases += 1
+        try:
+            o_ = _ops(th, ob, names, pts)
+            worst, where = _dev(o_[names[0]], [o_[n] for n in names[1:]])
+            ok, detail = worst <= 1e-8, f"max relative deviation {worst:.2e} at (point, order) {where}"
+        except Exception as e:  # noqa
+            ok, detail = False, f"{type(e).__name__}: {e}"
+        o = ob_eval(f"C07/bounded/real run/{nm}", ok, kind="bounded", detail=detail, inputs={} if ok else {"scenario": nm, "observed": detail}, replay={"confirmed": True, "python": f"run_yadism(base_theory(**{th}), base_obs(**{ob}, observables={names})) at {pts}"})
+        o.bounded = True
+        rep.add(o)
+    # FONLL parts: full = massless + massive (three runs)
+    for pto in (1, 2) if thorough else (1,):
+        for name in ("F2_charm", "F2_total", "FL_total") if thorough else ("F2_total",):
+            rep.cases += 1
+            try:
+                runs = {p: _ops(dict(FNS="FONLL-FFNS", NfFF=4, PTO=pto, PTODIS=pto, FONLLParts=p), dict(prDIS="NC"), [name], pts)[name] for p in ("full", "massless", "massive")}
+                worst, where = _dev(runs["full"], [runs["massless"], runs["massive"]])
+                ok, detail = worst <= 1e-8, f"max relative deviation {worst:.2e} at (point, order) {where}"
+            except Exception as e:  # noqa
+                ok, detail = False, f"{type(e).__name__}: {e}"
+            o = ob_eval(f"C07/bounded/real run/FONLL-FFNS NfFF=4 NC {name} pto={pto}: full = massless + massive", ok, kind="bounded", detail=detail, inputs={} if ok else {"observable": name, "pto": pto, "observed": detail})
+            o.bounded = True
+            rep.add(o)
+    # coupling restriction: six restricted runs sum to the unrestricted one
+    for pr in ("NC", "EM") if thorough else ("NC",):
+        for name in ("F2_total", "F3_total") if thorough else ("F2_total",):
+            if pr == "EM" and name.startswith("F3"):
+                continue
+            rep.cases += 1
+            try:
+                th = dict(FNS="ZM-VFNS", NfFF=5, PTO=1, PTODIS=1)
+                full = _ops(th, dict(prDIS=pr), [name], pts)[name]
+                parts = [_ops(th, dict(prDIS=pr, NCPositivityCharge=q), [name], pts)[name] for q in ("down", "up", "strange", "charm", "bottom", "top")]
+                worst, where = _dev(full, parts)
+                ok, detail = worst <= 1e-8, f"max relative deviation {worst:.2e} at (point, order) {where}"
+            except Exception as e:  # noqa
+                ok, detail = False, f"{type(e).__name__}: {e}"
+            o = ob_eval(f"C07/bounded/real run/ZM-VFNS {pr} {name} NLO: sum of the six coupling-restricted runs = unrestricted run", ok, kind="bounded", detail=detail, inputs={} if ok else {"observable": name, "process": pr, "observed": detail})
+            o.bounded = True
+            rep.add(o)
+
+
 def run(rep, tier, seed, only=None):
     rep.assume(
         "finite kernels: additivity of the kernel lists lifts to the operators because the NaN clean-up acts after the sum and is the identity on finite values -- in-repo formulas finite on their domain (C03), the tabulated N3LO massive coefficient finite everywhere (checked: all B-spline coefficients finite), LeProHQ values finite away from the documented small-x region (A-ext, unchecked)",
@@ -334,7 +421,7 @@ def run(rep, tier, seed, only=None):
         "cells whose dispatch raises are C16's matter and are skipped here (counted)",
     )
     rep.stub("CouplingConstants -> WStub", "eko nf_default -> enumerated nf", "LeProHQ/adani/splines never evaluated (only kernels are collected)")
-    for nm, f in (("lattices", lambda r: sec_lattices(r, tier)), ("poscharge", sec_poscharge_contract), ("kernel", sec_kernel), ("readset", sec_readset), ("weightsframe", H.weights_frame), ("xslift", lambda r: __import__("contracts.c11", fromlist=["x"]).sec_get_result(r)), ("schemedispatch", lambda r: H.scheme_families(r, tier)), ("finitekernels", lambda r: sec_finite_kernels(r, tier))):
+    for nm, f in (("lattices", lambda r: sec_lattices(r, tier)), ("poscharge", sec_poscharge_contract), ("kernel", sec_kernel), ("readset", sec_readset), ("weightsframe", H.weights_frame), ("xslift", lambda r: __import__("contracts.c11", fromlist=["x"]).sec_get_result(r)), ("schemedispatch", lambda r: H.scheme_families(r, tier)), ("finitekernels", lambda r: sec_finite_kernels(r, tier)), ("realruns", lambda r: sec_real_runs(r, tier))):
         if only and only not in nm:
             continue
         rep.add(guarded(f"C07/{nm}", lambda f=f: (f(rep), [])[1]))
